@@ -319,12 +319,17 @@ type params struct {
 	refAlt            bool
 	steerKey          int // key class forced on the real side through csrand.Reader, -1 none (reference pairings only)
 	steerPad          int // -1 none; bit0: phase-1 padding of the real side max (else 0), bit1: same for phase 2
+	big               int // > 0: both sides' scripts contain single large writes from bigMenu
 	seed              uint64
 }
 
+// bigMenu: single application writes well beyond any internal buffer size a
+// transport might use (io.Copy's 32 KiB, 64 KiB), deliberately not multiples of them.
+var bigMenu = []int{32767, 32769, 40000, 65535, 65537, 98305, 100001, 131073, 200003}
+
 func (p params) String() string {
-	return fmt.Sprintf("pairing=%s scenario=%s c2s=%s s2c=%s straddle=%d refpad=%d,%d coalesce=%v refkey=%d alt=%v steerkey=%d steerpad=%d seed=%x",
-		pairingNames[p.pairing], scenarioNames[p.scenario], policies[p.polC2S].name, policies[p.polS2C].name, p.straddle, p.refPad1, p.refPad2, p.coalesce, p.refKey, p.refAlt, p.steerKey, p.steerPad, p.seed)
+	return fmt.Sprintf("pairing=%s scenario=%s c2s=%s s2c=%s straddle=%d refpad=%d,%d coalesce=%v refkey=%d alt=%v steerkey=%d steerpad=%d big=%d seed=%x",
+		pairingNames[p.pairing], scenarioNames[p.scenario], policies[p.polC2S].name, policies[p.polS2C].name, p.straddle, p.refPad1, p.refPad2, p.coalesce, p.refKey, p.refAlt, p.steerKey, p.steerPad, p.big, p.seed)
 }
 
 type rw interface {
@@ -494,6 +499,13 @@ func runConn(c *mon.Case, r *mon.Run, p params) {
 		}
 	}
 	cScript, sScript := script(rng, nW, maxTotal), script(rng, nW, maxTotal)
+	if p.big > 0 {
+		b := bigMenu[(p.big-1)%len(bigMenu)]
+		b2 := bigMenu[(p.big+3)%len(bigMenu)]
+		cScript, sScript = []int{rng.IntN(200), b, 1 + rng.IntN(3000), b2, 17}, []int{b, 1 + rng.IntN(200), b2, 3000, 1}
+		nW = 5
+		r.Count("big_write_connections", 1)
+	}
 	gaps := func() []time.Duration {
 		g := make([]time.Duration, nW)
 		for i := range g {
@@ -1145,6 +1157,24 @@ func TestCheck(t *testing.T) {
 				})
 			}
 		}
+	}
+
+	r.Note("big_writes", "additional family: both sides perform single application writes of 32767..200003 bytes (not multiples of 32 KiB / 64 KiB) between small writes, under all-available / PRNG / 4 KiB-window chunking; counted as big_write_connections")
+	// ---- Part A2: single large application writes (not multiples of 32 KiB / 64 KiB)
+	for pairing := 0; pairing < nPairings; pairing++ {
+		pairing := pairing
+		r.Case("big-writes/"+pairingNames[pairing], func(c *mon.Case) {
+			for bi := range bigMenu {
+				for vi, v := range [][3]int{{scConcurrent, 0, 0}, {scLockstep, 8, 9}, {scBurst, 9, 8}} {
+					if !r.Thorough() && (bi+vi)%3 != 0 {
+						continue
+					}
+					p := params{pairing: pairing, scenario: v[0], polC2S: v[1], polS2C: v[2], straddle: -1, refPad1: -1, refPad2: -1, coalesce: bi%2 == 0,
+						refKey: -1, refAlt: bi%4 < 2, steerKey: -1, steerPad: -1, big: bi + 1, seed: r.Sub("big", pairing, bi, vi)}
+					bubble(c, p.String(), func() { runConn(c, r, p) })
+				}
+			}
+		})
 	}
 
 	// ---- Part B: reference padding sweep
